@@ -7,6 +7,7 @@ package vm
 
 import (
 	"errors"
+	"github.com/youchainhq/go-youchain/local"
 	"math/big"
 
 	"github.com/youchainhq/go-youchain/common"
@@ -36,8 +37,8 @@ type zzC16DB struct {
 	codeHash common.Hash
 }
 
-func (d *zzC16DB) mut(what string)                       { d.events = append(d.events, zzC16Ev{"mutate:" + what, 0}) }
-func (d *zzC16DB) CreateAccount(common.Address)          { d.mut("CreateAccount") }
+func (d *zzC16DB) mut(what string)                         { d.events = append(d.events, zzC16Ev{"mutate:" + what, 0}) }
+func (d *zzC16DB) CreateAccount(common.Address)            { d.mut("CreateAccount") }
 func (d *zzC16DB) SubBalance(a common.Address, v *big.Int) { d.mut("SubBalance") }
 func (d *zzC16DB) AddBalance(a common.Address, v *big.Int) { d.mut("AddBalance") }
 func (d *zzC16DB) GetBalance(a common.Address) *big.Int {
@@ -46,44 +47,50 @@ func (d *zzC16DB) GetBalance(a common.Address) *big.Int {
 	}
 	return new(big.Int)
 }
-func (d *zzC16DB) GetNonce(a common.Address) uint64                 { return d.nonce[a] }
-func (d *zzC16DB) SetNonce(a common.Address, n uint64)              { d.mut("SetNonce") }
-func (d *zzC16DB) GetCodeHash(common.Address) common.Hash           { return d.codeHash }
-func (d *zzC16DB) GetCode(common.Address) []byte                    { return []byte{0} }
-func (d *zzC16DB) SetCode(common.Address, []byte)                   { d.mut("SetCode") }
-func (d *zzC16DB) GetCodeSize(common.Address) int                   { return 1 }
-func (d *zzC16DB) AddRefund(uint64)                                 { d.mut("AddRefund") }
-func (d *zzC16DB) SubRefund(uint64)                                 { d.mut("SubRefund") }
-func (d *zzC16DB) GetRefund() uint64                                { return 0 }
+func (d *zzC16DB) GetNonce(a common.Address) uint64                          { return d.nonce[a] }
+func (d *zzC16DB) SetNonce(a common.Address, n uint64)                       { d.mut("SetNonce") }
+func (d *zzC16DB) GetCodeHash(common.Address) common.Hash                    { return d.codeHash }
+func (d *zzC16DB) GetCode(common.Address) []byte                             { return []byte{0} }
+func (d *zzC16DB) SetCode(common.Address, []byte)                            { d.mut("SetCode") }
+func (d *zzC16DB) GetCodeSize(common.Address) int                            { return 1 }
+func (d *zzC16DB) AddRefund(uint64)                                          { d.mut("AddRefund") }
+func (d *zzC16DB) SubRefund(uint64)                                          { d.mut("SubRefund") }
+func (d *zzC16DB) GetRefund() uint64                                         { return 0 }
 func (d *zzC16DB) GetCommittedState(common.Address, common.Hash) common.Hash { return common.Hash{} }
-func (d *zzC16DB) GetState(common.Address, common.Hash) common.Hash { return common.Hash{} }
-func (d *zzC16DB) SetState(common.Address, common.Hash, common.Hash) { d.mut("SetState") }
-func (d *zzC16DB) Suicide(common.Address) bool                      { d.mut("Suicide"); return true }
-func (d *zzC16DB) HasSuicided(common.Address) bool                  { return false }
-func (d *zzC16DB) Exist(common.Address) bool                        { return d.exists }
-func (d *zzC16DB) Empty(common.Address) bool                        { return !d.exists }
-func (d *zzC16DB) RevertToSnapshot(id int)                          { d.events = append(d.events, zzC16Ev{"revert", id}) }
+func (d *zzC16DB) GetState(common.Address, common.Hash) common.Hash          { return common.Hash{} }
+func (d *zzC16DB) SetState(common.Address, common.Hash, common.Hash)         { d.mut("SetState") }
+func (d *zzC16DB) Suicide(common.Address) bool                               { d.mut("Suicide"); return true }
+func (d *zzC16DB) HasSuicided(common.Address) bool                           { return false }
+func (d *zzC16DB) Exist(common.Address) bool                                 { return d.exists }
+func (d *zzC16DB) Empty(common.Address) bool                                 { return !d.exists }
+func (d *zzC16DB) RevertToSnapshot(id int)                                   { d.events = append(d.events, zzC16Ev{"revert", id}) }
 func (d *zzC16DB) Snapshot() int {
 	id := d.nextSnap
 	d.nextSnap++
 	d.events = append(d.events, zzC16Ev{"snapshot", id})
 	return id
 }
-func (d *zzC16DB) AddLog(*types.Log)                                 { d.mut("AddLog") }
-func (d *zzC16DB) AddPreimage(common.Hash, []byte)                   {}
+func (d *zzC16DB) AddLog(*types.Log)                                                  { d.mut("AddLog") }
+func (d *zzC16DB) AddPreimage(common.Hash, []byte)                                    {}
 func (d *zzC16DB) ForEachStorage(common.Address, func(common.Hash, common.Hash) bool) {}
-func (d *zzC16DB) GetValidatorsStat() (*state.ValidatorsStat, error) { return nil, nil }
-func (d *zzC16DB) GetValidatorByMainAddr(common.Address) *state.Validator { return nil }
-func (d *zzC16DB) GetValidators() *state.Validators                  { return nil }
+func (d *zzC16DB) GetValidatorsStat() (*state.ValidatorsStat, error)                  { return nil, nil }
+func (d *zzC16DB) GetValidatorByMainAddr(common.Address) *state.Validator             { return nil }
+func (d *zzC16DB) GetValidators() *state.Validators                                   { return nil }
 func (d *zzC16DB) CreateValidator(name string, operator, coinbase common.Address, role params.ValidatorRole, mainPubKey, blsPubKey hexutil.Bytes, token, stake *big.Int, acceptDelegation, commissionRate, riskObligation uint16, status uint8) *state.Validator {
 	d.mut("CreateValidator")
 	return nil
 }
-func (d *zzC16DB) UpdateValidator(newVal, oldVal *state.Validator) bool { d.mut("UpdateValidator"); return true }
-func (d *zzC16DB) RemoveValidator(common.Address) bool                  { d.mut("RemoveValidator"); return true }
-func (d *zzC16DB) AddWithdrawRecord(*state.WithdrawRecord) bool         { d.mut("AddWithdrawRecord"); return true }
-func (d *zzC16DB) GetWithdrawQueue() *state.WithdrawQueue               { return nil }
-func (d *zzC16DB) RemoveWithdrawRecords([]int) bool                     { d.mut("RemoveWithdrawRecords"); return true }
+func (d *zzC16DB) UpdateValidator(newVal, oldVal *state.Validator) bool {
+	d.mut("UpdateValidator")
+	return true
+}
+func (d *zzC16DB) RemoveValidator(common.Address) bool { d.mut("RemoveValidator"); return true }
+func (d *zzC16DB) AddWithdrawRecord(*state.WithdrawRecord) bool {
+	d.mut("AddWithdrawRecord")
+	return true
+}
+func (d *zzC16DB) GetWithdrawQueue() *state.WithdrawQueue { return nil }
+func (d *zzC16DB) RemoveWithdrawRecords([]int) bool       { d.mut("RemoveWithdrawRecords"); return true }
 
 // ---- the callee: an arbitrary outcome (induction hypothesis for the frame below) ----
 
@@ -96,6 +103,7 @@ var (
 func zzC16Run(evm *EVM, contract *Contract, input []byte, readOnly bool) ([]byte, error) {
 	zzC16ReadOnly = readOnly
 	zzC16RunCalls++
+	zzC16Given = contract.Gas
 	// the callee may change state through the journalled interface ...
 	evm.StateDB.SetState(common.Address{9}, common.Hash{}, common.Hash{1})
 	// ... and uses an arbitrary part of the gas it was given
@@ -257,5 +265,114 @@ func zzH_C16_readonly() {
 	for _, e := range db.events {
 		zzverif.Assert(e.kind != "mutate:SetState" && e.kind != "mutate:AddLog" && e.kind != "mutate:Suicide" && e.kind != "mutate:SetCode" && e.kind != "mutate:SubBalance", "no state mutation happens in read-only mode")
 	}
+	zzverif.Reach("end")
+}
+
+// ---- the CALL family's gas forwarding through the real interpreter loop ----
+
+var zzC16Given uint64 // gas the callee frame was started with
+
+// zzH_C16_opcall: one CALL / CALLCODE / DELEGATECALL / STATICCALL instruction executed by the
+// real interpreter (opCall*, gasCall*, callGas, memory expansion 0) with a symbolic gas
+// operand, value and caller gas, the callee an arbitrary outcome: gas is never created -
+// the callee is started with at most what the caller still had (plus the stipend of a value
+// transfer), and the caller ends with less than it started with.  (This chain's callGas hands
+// out the gas operand uncapped when it is below the available gas; the all-but-one-64th rule
+// only applies when the operand exceeds it - the statement does not ask for more.)
+//
+//verif:mode int
+func zzH_C16_opcall() {
+	evm, db := zzC16EVM()
+	evm.depth = 0
+	evm.vmConfig.NoRecursion = false
+	evm.vmConfig.JumpTable = istanbulInstructionSet
+	evm.LocalRecorder = local.FakeRecorder()
+	in := NewEVMInterpreter(evm, evm.vmConfig)
+	evm.interpreter = in
+	ops := []OpCode{CALL, CALLCODE, DELEGATECALL, STATICCALL}
+	op := ops[zzverif.Choose("opcode", 4)]
+	val := zzverif.U8("callValue")
+	req := zzverif.U64("gasOperand")
+	var code []byte
+	push1 := func(b byte) { code = append(code, byte(PUSH1), b) }
+	// stack (top first): gas, addr, [value,] inOffset, inSize, retOffset, retSize
+	push1(0)
+	push1(0)
+	push1(0)
+	push1(0)
+	npush := 6
+	if op == CALL || op == CALLCODE {
+		push1(val)
+		npush = 7
+	}
+	push1(2) // callee address
+	code = append(code, byte(PUSH8))
+	for i := 7; i >= 0; i-- {
+		code = append(code, byte(req>>(8*uint(i))))
+	}
+	code = append(code, byte(op))
+	G := zzverif.U64("callerGas")
+	zzverif.Assume(G < 1<<62)
+	c := NewContract(AccountRef(common.Address{1}), AccountRef(common.Address{1}), new(big.Int), G)
+	c.Code = code
+	zzC16Given = 0
+	_, err := in.Run(c, nil, false)
+	before := uint64(npush) * GasFastestStep // the pushes
+	if zzC16RunCalls > 0 {
+		zzverif.Reach("callee-ran")
+		stipend := uint64(0)
+		if (op == CALL || op == CALLCODE) && val != 0 {
+			stipend = params.CallStipend
+		}
+		avail := G - before - 700 // what the caller had left after the constant cost of the call
+		zzverif.Assert(G >= before+700, "the call only runs when its constant cost is covered")
+		zzverif.Assert(zzC16Given <= avail+stipend, "the callee is started with gas the caller had and paid for (plus the value-transfer stipend), never more")
+	}
+	zzverif.Assert(c.Gas <= G, "a frame never ends with more gas than it started with")
+	if err == nil && zzC16RunCalls > 0 {
+		zzverif.Assert(c.Gas+before+700 <= G, "the caller pays at least the constant cost of the call")
+	}
+	_ = db
+	zzverif.Reach("end")
+}
+
+// zzH_C16_static_nesting: one interpreter frame is the inductive step over nesting depth of the
+// static context: entered with the interpreter-wide read-only flag in either state and with
+// either readOnly argument, the frame runs with flag = (flag before || argument) - observed at
+// a state-changing opcode - and leaves the flag exactly as it found it, also when the frame ends
+// in an error.  (So a static call nested in a static context does not lift the protection of
+// the frames above it, and a static context ends with the frame that opened it.)
+func zzH_C16_static_nesting() {
+	db := &zzC16DB{bal: map[common.Address]*big.Int{}, nonce: map[common.Address]uint64{}}
+	evm := &EVM{StateDB: db, vmConfig: &Config{}}
+	evm.vmConfig.JumpTable = istanbulInstructionSet
+	evm.LocalRecorder = local.FakeRecorder()
+	in := NewEVMInterpreter(evm, evm.vmConfig)
+	outer := zzverif.Bool("enclosingContextIsStatic")
+	arg := zzverif.Bool("frameEnteredAsStatic")
+	in.readOnly = outer
+	var code []byte
+	switch zzverif.Choose("frameBody", 3) {
+	case 0: // a write
+		code = []byte{byte(PUSH1), 1, byte(PUSH1), 0, byte(SSTORE), byte(STOP)}
+	case 1: // ends in an error
+		code = []byte{0xfe} // the designated invalid opcode
+	case 2: // no code at all
+	}
+	c := NewContract(AccountRef(common.Address{1}), AccountRef(common.Address{2}), new(big.Int), 100000)
+	c.Code = code
+	_, err := in.Run(c, nil, arg)
+	wrote := false
+	for _, e := range db.events {
+		if e.kind == "mutate:SetState" {
+			wrote = true
+		}
+	}
+	if len(code) == 6 {
+		zzverif.Reach("write-attempted")
+		zzverif.Assert(wrote == !(outer || arg), "a write goes through exactly when neither the enclosing context nor this frame is static")
+		zzverif.Assert((err == errWriteProtection) == (outer || arg), "a write in a static context is refused")
+	}
+	zzverif.Assert(in.readOnly == outer, "a frame leaves the interpreter's static flag as it found it")
 	zzverif.Reach("end")
 }
